@@ -498,8 +498,15 @@ Loop(tg, la, items, j, body, env, m) ==
 
 AugOp(op) == op     \* "+", "-", "*", "//", "%"
 
+(* scalar variables bound in the innermost frame, as <<name, text>> (what a debugger shows) *)
+ScalarVars(env, m) ==
+    LET fr == m.heap[env[1]]
+        idx == SelectSeq([i \in 1..Len(fr.names) |-> i],
+                         LAMBDA i : fr.vals[i].t \in {"int", "str", "bool", "none"})
+    IN [j \in 1..Len(idx) |-> [n |-> fr.names[idx[j]], v |-> Str(fr.vals[idx[j]], m.heap), t |-> fr.vals[idx[j]].t]]
+
 X(s, env, m0) ==
-    LET m == Ev(m0, [e |-> "stmt", a |-> s.line, why |-> ""]) IN
+    LET m == Ev(m0, [e |-> "stmt", a |-> s.line, why |-> "", d |-> m0.depth, vs |-> ScalarVars(env, m0)]) IN
     IF ~Ok(m) THEN Flow(m, "next", NoneV)
     ELSE IF s.k = "expr" THEN (LET x == E(s.e, env, m) IN Flow(x.m, "next", NoneV))
     ELSE IF s.k = "assign" THEN
